@@ -11,8 +11,9 @@ if [ -z "$SKIP_TESTS" ]; then
   (cd $wt && go build ./... && go test -vet=off -count=1 ./... 2>&1 | grep -v "no test files" | grep -v "^ok" | head -5)
   echo "tests: $( (cd $wt && go test -vet=off -count=1 ./... >/dev/null 2>&1) && echo PASS || echo FAIL)"
 fi
-out=/verif/seeded/$id/result_${prop}_${tier}.txt
-VERIF_REPO=$wt VERIF_BIN_DIR=/tmp/sens_bin_$id /verif/check $prop $tier > $out 2>&1
+out=/tmp/sens_result_${id}_${prop}_${tier}.txt
+mkdir -p /tmp/sens_out_$id
+VERIF_REPO=$wt VERIF_BIN_DIR=/tmp/sens_bin_$id VERIF_EVIDENCE_DIR=/tmp/sens_out_$id VERIF_REPLAY_DIR=/tmp/sens_out_$id /verif/check $prop $tier > $out 2>&1
 rc=$?
 echo "check exit=$rc"; grep -A2 "^VIOLATION" $out | grep -v "^--" | cut -c1-220 | head -12; tail -1 $out | cut -c1-250
 git -C /repo worktree remove --force $wt; rm -rf /tmp/sens_bin_$id
